@@ -1,23 +1,23 @@
 (* C15 — Sparse memory map behaves as an address-to-byte dictionary.
-   Statements only; proofs live in Mem/MapProofs.v.  Model: Mem/MapModel.v (transliteration of
-   src/asm/memory/map/mod.rs; `dbg` = overflow-checks/debug-assertions on or off), oracle: Mem/DictSpec.v
-   (ascending association list address -> byte; `runs` = maximal occupied intervals).
+   Statements only; proofs live in Mem/MapProofs.v, MapProofs2.v (read side, remove, free-space put),
+   Mem/MapLemmas.v, MapPutNorm.v, MapPutProofs.v (put, every arm), Mem/MapRangeProofs.v (remove_range,
+   count_range, iter_range), Mem/MapHistory.v (operation histories) and Mem/MapOccupied.v (occupied-address view).
+   Model: Mem/MapModel.v (transliteration of src/asm/memory/map/mod.rs; `dbg` = overflow-checks/debug-assertions
+   on or off), oracle: Mem/DictSpec.v (ascending association list address -> byte; `runs` = maximal occupied intervals).
    `Rep m`  = sorted, non-empty segments, |data| = last-first+1, last < 2^32, >= 1 free address between neighbours.
    `abs m`  = the dictionary a map denotes.
 
-   NOT proved here (covered by the correspondence stream only, see props/C15.json):
-   * put when the written interval touches or overlaps existing segments (the five splice arms and the
-     merge tail):   Rep m -> a < 2^32 -> a + |data| <= 2^32 ->
-                    exists m' n, map_put dbg m a data = Ok (m', Some n) /\ Rep m' /\ d_put (abs m) a data = (abs m', Some n)
-     (this one statement is C15_inv + C15_refines + C15_put_count + C15_no_panic for put);
-   * remove_range: Rep m -> f <= l -> exists m', map_remove_range dbg m f l = Ok m' /\ Rep m' /\
-                    abs m' = d_remove_range (abs m) f l;
-   * count_range / iter_range:  Rep m -> f <= l ->
-                    map_count_range dbg m f l = Ok (d_count_range (abs m) f l),
-                    map_iter_range dbg m f l = Ok (d_iter_range (abs m) f l);
-   * the lifting to arbitrary histories by fold_left from map_new (needs the two preservation results above). *)
+   Every statement of the property is proved here for the model (no `_partial` theorem is left):
+   * C15_put is the one statement C15_inv + C15_refines + C15_put_count + C15_no_panic for put, in ALL arms
+     (insert, replace, prepend, append, interior overwrite, merge of any number of following segments);
+   * C15_remove_range, C15_count_range, C15_iter_range for every range first <= last;
+   * C15_history lifts invariant, refinement, absence of panics and the return values to every finite
+     sequence of put / remove / remove_range / clear starting from new().
+   NOT covered by a theorem (outside the property, see props/C15.json): get()/get_mut() in Below/Above mode
+   (they panic when addr lies outside the segment found — C15_examples shows it). *)
 From Coq Require Import NArith List.
-From Trion Require Import Mem.MapModel Mem.DictSpec Mem.MapProofs Mem.MapProofs2.
+From Trion Require Import Mem.MapModel Mem.DictSpec Mem.MapProofs Mem.MapProofs2 Mem.MapPutProofs Mem.MapRangeProofs
+  Mem.MapHistory Mem.MapOccupied.
 Import ListNotations.
 Open Scope N_scope.
 
@@ -53,14 +53,56 @@ Theorem C15_put_empty : forall dbg m a,
   map_put dbg m a [] = Ok (m, Some 0) /\ (a <= SPACE -> d_put (abs m) a [] = (abs m, Some 0)).
 Proof. exact put_empty. Qed.
 
-(* put, PARTIAL: only for data written into free space (no existing segment overlaps or is adjacent to
-   [a, a+|data|-1]) — the `insert` arm.  No panic, invariant kept, dictionary updated, count = |data|.
-   Full statement: see the header comment. *)
-Theorem C15_put_partial : forall dbg m a data, Rep m -> a < U32 -> data <> [] -> a + len data <= SPACE ->
+(* put, every case (free space, adjacent, overlapping one or many segments, at both ends of the address space):
+   never panics in either build profile, keeps the invariant, writes exactly the cells of the dictionary put,
+   and returns the oracle's count = number of previously unoccupied addresses that were filled *)
+Theorem C15_put : forall dbg m a data, Rep m -> a < U32 -> a + len data <= SPACE ->
+  exists m' n, map_put dbg m a data = Ok (m', Some n) /\ Rep m' /\ d_put (abs m) a data = (abs m', Some n).
+Proof. exact put_ok. Qed.
+
+(* special case kept for its sharper conclusion: data written where no existing segment overlaps or is adjacent
+   is inserted as a segment of its own and the count is |data| *)
+Theorem C15_put_free_space : forall dbg m a data, Rep m -> a < U32 -> data <> [] -> a + len data <= SPACE ->
   (forall s, In s m -> slast s + 1 < a \/ a + len data < sfirst s) ->
   exists m', map_put dbg m a data = Ok (m', Some (len data)) /\ Rep m' /\
              d_put (abs m) a data = (abs m', Some (len data)).
 Proof. exact put_insert_ok. Qed.
+
+(* the view a client of the map needs (the segment writer, C13): writing into free addresses — existing segments
+   may be adjacent — reports |data| new addresses, and afterwards exactly the old addresses and the written
+   interval are occupied *)
+Theorem C15_put_fresh : forall dbg m a data, Rep m -> a + len data <= U32 ->
+  (forall g, In g m -> slast g < a \/ a + len data <= sfirst g) ->
+  exists m', map_put dbg m a data = Ok (m', Some (len data)) /\ Rep m' /\
+    (forall x, occupied m' x <-> occupied m x \/ (a <= x /\ x < a + len data)).
+Proof. exact put_fresh_ok. Qed.
+
+(* remove_range: never panics (the assert! cannot fire), keeps the invariant, removes exactly the cells in the range *)
+Theorem C15_remove_range : forall dbg m f l, Rep m -> f <= l ->
+  exists m', map_remove_range dbg m f l = Ok m' /\ Rep m' /\ abs m' = d_remove_range (abs m) f l.
+Proof. exact remove_range_ok. Qed.
+
+(* count_range / iter_range: never panic (no overflow of the unchecked `+=`, the debug_assert holds, slices in range)
+   and answer what the dictionary restricted to the range says *)
+Theorem C15_count_range : forall dbg m f l, Rep m -> f <= l ->
+  map_count_range dbg m f l = Ok (d_count_range (abs m) f l).
+Proof. exact count_range_ok. Qed.
+
+Theorem C15_iter_range : forall dbg m f l, Rep m -> f <= l ->
+  map_iter_range dbg m f l = Ok (d_iter_range (abs m) f l).
+Proof. exact iter_range_ok. Qed.
+
+(* the lifting: after ANY finite history of put / remove / remove_range / clear applied to new() (arguments as the
+   Rust types allow them: u32 addresses, first <= last) no operation has panicked, the map is well-formed, it denotes
+   the dictionary obtained by the same history, and every return value along the way was the oracle's *)
+Theorem C15_history : forall dbg ops, Forall op_ok ops ->
+  exists m, m_run dbg ops = Ok (m, snd (d_run ops)) /\ Rep m /\ abs m = fst (d_run ops).
+Proof. exact history_ok. Qed.
+
+(* one step of a history, from any well-formed state *)
+Theorem C15_step : forall dbg m o, Rep m -> op_ok o ->
+  exists m' x, m_step dbg m o = Ok (m', x) /\ Rep m' /\ d_step (abs m) o = (abs m', x).
+Proof. exact step_ok. Qed.
 
 (* find in all three modes, for every address (0 and 2^32-1 included): never panics, equals the run-based answer *)
 Theorem C15_lookup_find : forall dbg m addr sr, Rep m ->
@@ -77,7 +119,8 @@ Proof. exact get_exact_ok. Qed.
 Theorem C15_lookup_count : forall dbg m, Rep m -> map_count dbg m = Ok (d_count (abs m)).
 Proof. exact count_ok. Qed.
 
-(* non-vacuity: a put that bridges three segments (4 of its 8 addresses were free), the same at the top of the
+(* non-vacuity: range queries clipped at both ends, a history with merge / split / remove / overflow and its
+   return values; a put that bridges three segments (4 of its 8 addresses were free), the same at the top of the
    address space, the overflow rejection, and a remove_range that splits a segment, on model and dictionary;
    last line: get() in Above mode on an address below the segment found panics in the slice (release) /
    in the subtraction (debug) — observed on the real code too; the property only names get(Exact). *)
@@ -93,5 +136,11 @@ Theorem C15_examples :
   /\ map_remove_range false m4 103 105 = Ok [(100, 102, [1; 9; 9]); (106, 109, [9; 9; 9; 6])]
   /\ abs [(100, 102, [1; 9; 9]); (106, 109, [9; 9; 9; 6])] = d_remove_range (abs m4) 103 105
   /\ map_count true m3 = Ok (d_count (abs m3))
+  /\ map_count_range true m3 101 108 = Ok (4, 3) /\ d_count_range (abs m3) 101 108 = (4, 3)
+  /\ map_iter_range false m3 101 108 = Ok [(101, 101, [2]); (104, 105, [3; 4]); (108, 108, [5])]
+  /\ m_run true [OPut 100 [1; 2]; OPut 104 [3; 4]; OPut 101 [9; 9; 9; 9]; ORemoveRange 102 103; ORemove 100; OPut t [7; 7]]
+     = Ok ([(104, 105, [9; 4])], [RPut (Some 2); RPut (Some 2); RPut (Some 2); RUnit; RRemove (Some (100, 101, [1; 9])); RPut None])
+  /\ d_run [OPut 100 [1; 2]; OPut 104 [3; 4]; OPut 101 [9; 9; 9; 9]; ORemoveRange 102 103; ORemove 100; OPut t [7; 7]]
+     = ([(104, 9); (105, 4)], [RPut (Some 2); RPut (Some 2); RPut (Some 2); RUnit; RRemove (Some (100, 101, [1; 9])); RPut None])
   /\ map_get false m3 0 Above = Panic S_get_slice /\ map_get true m3 0 Above = Panic S_get_sub.
 Proof. vm_compute. repeat split; reflexivity. Qed.
